@@ -7,7 +7,7 @@ W=$(mktemp -d /var/tmp/ben.XXXXXX)
 git -C /repo worktree add -q --detach "$W" HEAD || exit 2
 cleanup() { git -C /repo worktree remove --force "$W" 2>/dev/null; KEY=$(printf '%s' "$W" | sha256sum | cut -c1-10); rm -rf "/verif/.build/$KEY"; }
 trap cleanup EXIT
-git -C "$W" apply "$PATCH" || { echo "PATCH DOES NOT APPLY"; exit 2; }
+git -C "$W" apply "$PATCH" 2>/dev/null || git -C "$W" apply --3way "$PATCH" || { echo "PATCH DOES NOT APPLY"; exit 2; }
 (cd "$W" && go build ./...) || { echo "DOES NOT COMPILE"; exit 2; }
 rc_all=0
 for p in C04 C07 C08 C09 C10 C12 C14 C15 C16; do
